@@ -41,6 +41,21 @@ use super::source::Source;
 use crossbeam_channel::Receiver;
 use crossbeam_channel::Sender;
 
+/// Scheduling/observation point for verification harnesses (see `crate::verif`).
+#[cfg(flacenc_verif)]
+macro_rules! vpoint {
+    ($site:expr, $a:expr, $b:expr) => {
+        crate::verif::point($site, $a as i64, $b as i64, None)
+    };
+    ($site:expr, $a:expr, $b:expr, $ready:expr) => {
+        crate::verif::point($site, $a as i64, $b as i64, Some(&$ready))
+    };
+}
+#[cfg(not(flacenc_verif))]
+macro_rules! vpoint {
+    ($($t:tt)*) => {};
+}
+
 /// `Arc::into_inner` with unwrapping.
 ///
 /// This function is introduced for conditional compilation for lowering MSRV.
@@ -140,6 +155,10 @@ impl ParFrameBuf {
     /// If this returns None, workder thread must immediately stop.
     #[inline]
     pub fn pop_encode_queue(&self) -> Option<usize> {
+        vpoint!("w.pop", -1, self.encode_queue.1.len(), || !self
+            .encode_queue
+            .1
+            .is_empty());
         self.encode_queue
             .1
             .recv()
@@ -149,6 +168,10 @@ impl ParFrameBuf {
     /// Locks `FrameBuf` with the specified id and returns `MutexGuard`.
     #[inline]
     pub fn lock_buffer(&self, bufid: usize) -> std::sync::MutexGuard<'_, NumberedFrameBuf> {
+        vpoint!("w.lock", bufid, 0, || !matches!(
+            self.buffers[bufid].try_lock(),
+            Err(std::sync::TryLockError::WouldBlock)
+        ));
         self.buffers[bufid]
             .lock()
             .expect(panic_msg::MUTEX_LOCK_FAILED)
@@ -157,6 +180,10 @@ impl ParFrameBuf {
     /// Requests refill for `FrameBuf` with the specified id.
     #[inline]
     pub fn enqueue_refill(&self, bufid: usize) {
+        vpoint!("w.refill", bufid, self.refill_queue.0.len(), || !self
+            .refill_queue
+            .0
+            .is_full());
         self.refill_queue
             .0
             .send(bufid)
@@ -165,6 +192,10 @@ impl ParFrameBuf {
 
     #[inline]
     pub fn recv_refill_request(&self) -> usize {
+        vpoint!("f.recv", -1, self.refill_queue.1.len(), || !self
+            .refill_queue
+            .1
+            .is_empty());
         self.refill_queue
             .1
             .recv()
@@ -173,6 +204,10 @@ impl ParFrameBuf {
 
     #[inline]
     pub fn enqueue_encode(&self, bufid: usize) -> bool {
+        vpoint!("f.enq", bufid, self.encode_queue.0.len(), || !self
+            .encode_queue
+            .0
+            .is_full());
         let starved = self.encode_queue.0.is_empty();
         self.encode_queue
             .0
@@ -184,6 +219,10 @@ impl ParFrameBuf {
     #[inline]
     pub fn request_stop(&self, workers: usize) {
         for _i in 0..workers {
+            vpoint!("f.stop", _i, self.encode_queue.0.len(), || !self
+                .encode_queue
+                .0
+                .is_full());
             self.encode_queue
                 .0
                 .send(None)
@@ -204,6 +243,7 @@ struct ParContext {
 impl ParContext {
     fn new(inner: Context) -> Self {
         let process_queue = crossbeam_channel::bounded(16);
+        vpoint!("m.spawn", -1, 16);
         let bytes_per_sample = inner.bytes_per_sample();
         let inner = Arc::new(Mutex::new(inner));
 
@@ -211,10 +251,17 @@ impl ParContext {
             let receiver = process_queue.1.clone();
             let inner = Arc::clone(&inner);
             thread::spawn(move || loop {
+                vpoint!("h.recv", -1, receiver.len(), || !receiver.is_empty()
+                    || matches!(
+                        receiver.try_recv(),
+                        Err(crossbeam_channel::TryRecvError::Disconnected)
+                    ));
                 let data: Vec<u8> = receiver.recv().expect(panic_msg::MPMC_RECV_FAILED);
                 if data.is_empty() {
+                    vpoint!("h.exit", 0, 0);
                     break;
                 }
+                vpoint!("h.update", data.len(), 0);
                 let mut inner = inner.lock().expect(panic_msg::MUTEX_LOCK_FAILED);
                 inner
                     .fill_le_bytes(&data, bytes_per_sample)
@@ -231,6 +278,12 @@ impl ParContext {
     }
 
     fn enqueue_buffer(&self) {
+        vpoint!(
+            "f.pqsend",
+            self.bytebuf.len(),
+            self.process_queue.0.len(),
+            || !self.process_queue.0.is_full()
+        );
         self.process_queue
             .0
             .send(self.bytebuf.clone())
@@ -240,6 +293,7 @@ impl ParContext {
     /// Sends stop signal and returns the number of remaining blocks in queue.
     fn request_stop(&self) -> usize {
         let ret = self.process_queue.0.len();
+        vpoint!("m.hstop", 0, ret, || !self.process_queue.0.is_full());
         self.process_queue
             .0
             .send(vec![])
@@ -248,6 +302,7 @@ impl ParContext {
     }
 
     fn finalize(self) -> Context {
+        vpoint!("m.hjoin", 0, 0, || self.thread_handle.is_finished());
         self.thread_handle
             .join()
             .expect(panic_msg::THREAD_JOIN_FAILED);
@@ -299,23 +354,31 @@ fn feed_fixed_block_size<T: Source, C: Fill>(
     'feed: loop {
         let bufid = parbuf.recv_refill_request();
         {
+            vpoint!("f.lock", bufid, 0, || !matches!(
+                parbuf.buffers[bufid].try_lock(),
+                Err(std::sync::TryLockError::WouldBlock)
+            ));
             let mut numbuf = parbuf.buffers[bufid]
                 .lock()
                 .expect(panic_msg::MUTEX_LOCK_FAILED);
             let mut framebuf_and_ctx = (&mut numbuf.framebuf, &mut context);
+            vpoint!("f.read", bufid, frame_count);
             let read_samples = match src.read_samples(block_size, &mut framebuf_and_ctx) {
                 Ok(n) => n,
                 Err(e) => {
+                    vpoint!("f.readerr", bufid, frame_count);
                     // workers must be released also when the source failed.
                     drop(numbuf);
                     parbuf.request_stop(workers);
                     return Err(e);
                 }
             };
+            vpoint!("f.readdone", read_samples, frame_count);
             if read_samples == 0 {
                 break 'feed;
             }
             numbuf.frame_number = Some(frame_count);
+            vpoint!("f.unlock", bufid, frame_count);
         }
         frame_count += 1;
         if parbuf.enqueue_encode(bufid) {
@@ -380,15 +443,18 @@ pub fn encode_with_fixed_block_size<T: Source>(
 
     let join_handles: Vec<_> = (0..worker_count)
         .map(|_n| {
+            vpoint!("m.spawn", _n, worker_count);
             let parbuf = Arc::clone(&parbuf);
             let parsink = Arc::clone(&parsink);
             let stream_info = stream.stream_info().clone();
             let config = Arc::clone(&config);
             thread::spawn(move || {
+                vpoint!("w.start", _n, 0);
                 while let Some(bufid) = parbuf.pop_encode_queue() {
                     let (frame_number, encode_result) = {
                         let numbuf = &parbuf.lock_buffer(bufid);
                         let frame_number = numbuf.frame_number.expect(panic_msg::FRAMENUM_NOT_SET);
+                        vpoint!("w.encode", bufid, frame_number);
                         (
                             frame_number,
                             coding::encode_fixed_size_frame(
@@ -412,8 +478,10 @@ pub fn encode_with_fixed_block_size<T: Source>(
                             unreachable!("{}, err={:?}", panic_msg::ERROR_NOT_EXPECTED, e);
                         }
                     };
+                    vpoint!("w.push", frame_number, result.is_ok());
                     parsink.push(frame_number, result);
                 }
+                vpoint!("w.exit", _n, 0);
             })
         })
         .collect();
@@ -428,11 +496,13 @@ pub fn encode_with_fixed_block_size<T: Source>(
     let remaining_md5_blocks = context.request_stop();
     let context = context.finalize();
     for h in join_handles {
+        vpoint!("m.join", 0, 0, || h.is_finished());
         h.join().expect(panic_msg::THREAD_JOIN_FAILED);
     }
 
     // Errors are reported in the order in which single-threaded encoding finds them: an
     // invalid block precedes a read error that happened after it.
+    vpoint!("m.finalize", 0, 0);
     let mut frames = vec![];
     destruct_arc(parsink).finalize(|f: Result<Frame, VerifyError>| frames.push(f));
     for frame in frames {
